@@ -89,6 +89,17 @@ NestStacks ==
   \cup {<<ShuffleL(2, N), ShuffleL(1, N)>> \o RealTail(N, N, 1, "float") : N \in 3..4}
   \cup {<<ShuffleL(2, 3), ShuffleL(1, 3), ShuffleL(2, 3)>> \o IntTail(3, 1, "double"), <<ShuffleL(1, 3), ClampL(1, 3), ShuffleL(2, 3)>> \o IntTail(3, 2, "float")}
 
+\* "all configuration values of each layer" (C17): the configuration of a layer is whatever it was given, whether or not it
+\* is consistent with its neighbours'.  Stacks whose array holds FEWER or MORE elements than the storage order above it
+\* addresses are constructed, read back, rebuilt from the reported configuration and built through the positional helper - and
+\* never looked up (config_only).
+LooseArray(st, count) == [j \in 1..Len(st) |-> IF st[j].k = "array" THEN [st[j] EXCEPT !.count = count] ELSE st[j]]
+LooseStacks ==
+  {LooseArray(IntTail(2, 2, "float"), c) : c \in {7, 19, 23}}                                    \* extents 5 x 4 = 20 cells
+  \cup {LooseArray(<<AffineL(1, 3)>> \o RealTail(1, 3, 3, "float"), c) : c \in {5, 81}}          \* 4 x 4 x 5 = 80 cells
+  \cup {LooseArray(<<ClampL(1, 1), ClampL(2, 1)>> \o IntTail(1, 1, "double"), c) : c \in {1, 5, 9}}   \* 6 cells
+  \cup {LooseArray(<<LayoutL("morton", 2), ArrayL(1, "float", "morton", 2)>>, c) : c \in {20, 63, 65}}   \* 5 x 4 padded to 64
+
 \* ---- seeded samples of depth up to 5
 Mix(h) == ((h % 46337) * (h % 46337) + 12345) % 46337
 Rnd(a, b) == Mix(Mix((a * 7919) + (b * 10473) + ((Seed % 1000) * 3137)) + (a * 131) + b)
@@ -202,5 +213,8 @@ ASSUME IllLaw
 
 EmitCases == TLCGet("stats").generated >= 0 /\
   ndJsonSerialize(IOEnv.VF_OUT, SetToSeq({StackCase(st) : st \in AllStacks})
+                                \o SetToSeq({[kind |-> "stack", config_only |-> TRUE, layers |-> st, depth |-> Len(st), n |-> Kind(st).n, ins |-> Kind(st).ins,
+                                              m |-> Kind(st).m, outs |-> Kind(st).outs, ref |-> Kind(st).ref, configs |-> Configs(st), scale |-> S,
+                                              queries |-> <<>>] : st \in {x \in LooseStacks : ~IsIll(Kind(x))}})
                                 \o SetToSeq({[kind |-> "ill", rule |-> c.rule, layers |-> c.layers] : c \in IllStacks}))
 =============================================================================
